@@ -4,6 +4,7 @@
 
 #[macro_use]
 pub mod enc;
+pub mod iterck;
 pub mod abs;
 pub mod corr;
 pub mod cx;
@@ -101,6 +102,7 @@ fn main() {
             "--case" => only = Some(val().parse().unwrap()),
             "--small" => small = true,
             "--hang-s" => hang_s = val().parse().unwrap(),
+            "--trace-cases" => cx::TRACE_CASES.store(true, std::sync::atomic::Ordering::Relaxed),
             _ => {
                 eprintln!("unknown arg {}", a);
                 std::process::exit(2);
